@@ -52,7 +52,7 @@ func snapshotTree(root string) ([]fsEnt, error) {
 	return out, err
 }
 
-func hx(b []byte) string {
+func lsHx(b []byte) string {
 	if len(b) == 0 {
 		return "-"
 	}
@@ -62,9 +62,9 @@ func hx(b []byte) string {
 // encodeTree renders a snapshot for the oracle; every path is prefixed with base ("s") and the
 // base directory itself is listed first.
 func encodeTree(base string, ents []fsEnt) string {
-	parts := []string{"d:" + hx([]byte(base)) + ":-"}
+	parts := []string{"d:" + lsHx([]byte(base)) + ":-"}
 	for _, e := range ents {
-		parts = append(parts, e.Kind+":"+hx([]byte(base+"/"+e.Path))+":"+hx(e.Data))
+		parts = append(parts, e.Kind+":"+lsHx([]byte(base+"/"+e.Path))+":"+lsHx(e.Data))
 	}
 	return strings.Join(parts, ",")
 }
@@ -80,18 +80,18 @@ func decodeTree(base, s string) ([]fsEnt, error) {
 		if len(f) != 3 {
 			return nil, fmt.Errorf("bad tree entry %q", e)
 		}
-		p := string(unhx(f[1]))
+		p := string(lsUnhx(f[1]))
 		if p == base {
 			continue
 		}
 		p = strings.TrimPrefix(p, base+"/")
-		out = append(out, fsEnt{Path: p, Kind: f[0], Data: unhx(f[2])})
+		out = append(out, fsEnt{Path: p, Kind: f[0], Data: lsUnhx(f[2])})
 	}
 	sort.Slice(out, func(i, j int) bool { return out[i].Path < out[j].Path })
 	return out, nil
 }
 
-func unhx(s string) []byte {
+func lsUnhx(s string) []byte {
 	if s == "-" || s == "" {
 		return nil
 	}
@@ -174,7 +174,7 @@ func diffTrees(a, b []fsEnt) string {
 }
 
 // errClass projects an error of the store API onto the classes compared with the model.
-func errClass(err error) string {
+func lsErrClass(err error) string {
 	if err == nil {
 		return "ok"
 	}
